@@ -293,7 +293,19 @@ struct Expect
 {
   std::vector<int> counts;
   long in_frame = 0, in_range = 0, out_of_range = 0, stored = 0, distinct_bins = 0;
+  long at_frame_start = 0, at_frame_end = 0, delayeds_stored = 0, cut_off_reached = 0, cut_off_not_reached = 0; // evidence only
 };
+static void
+count_expect(Ctx& ctx, const Expect& x)
+{
+  ctx.count("events_in_frames", x.in_frame);
+  ctx.count("events_out_of_range", x.out_of_range);
+  ctx.count("events_with_time_equal_to_frame_start", x.at_frame_start);
+  ctx.count("events_with_time_equal_to_frame_end", x.at_frame_end);
+  ctx.count("delayed_events_counted", x.delayeds_stored);
+  ctx.count("cut_offs_reached", x.cut_off_reached);
+  ctx.count("cut_offs_beyond_end_of_stream", x.cut_off_not_reached);
+}
 static int
 increment_of(const Rec& r, const Sel& s)
 {
@@ -319,8 +331,12 @@ model(const std::vector<Rec>& recs, const std::vector<int>& ev_bin, const Geo& g
           cur = r.ms;
           continue;
         }
+      if (sel.use_frame && cur == sel.f.e)
+        ++x.at_frame_end;
       if (sel.use_frame && !(sel.f.s <= cur && cur < sel.f.e))
         continue;
+      if (sel.use_frame && cur == sel.f.s)
+        ++x.at_frame_start;
       ++x.in_frame;
       const int b = ev_bin[i];
       if (b < 0)
@@ -334,6 +350,8 @@ model(const std::vector<Rec>& recs, const std::vector<int>& ev_bin, const Geo& g
         continue;
       x.counts[static_cast<size_t>(b)] += inc;
       ++x.stored;
+      if (!r.prompt)
+        ++x.delayeds_stored;
       if (!touched[static_cast<size_t>(b)])
         {
           touched[static_cast<size_t>(b)] = 1;
@@ -343,9 +361,14 @@ model(const std::vector<Rec>& recs, const std::vector<int>& ev_bin, const Geo& g
         {
           running -= inc;
           if (running == 0)
-            break;
+            {
+              x.cut_off_reached = 1;
+              break;
+            }
         }
     }
+  if (sel.cutoff > 0 && !x.cut_off_reached)
+    x.cut_off_not_reached = 1;
   return x;
 }
 
@@ -746,7 +769,7 @@ part_h(Ctx& ctx)
   // ---- what to run: 0 all events (no frame definitions), 1 one frame, 2 frames (partition / gaps), 3 num_events_to_store
   const int mode = static_cast<int>(ctx.idx % 4);
   vg::PdiSpec tps, lps;
-  w.tpl = gen_template(ctx, w, tps, false, /*never_single_tof_position=*/mode == 2);
+  w.tpl = gen_template(ctx, w, tps, false, /*never_single_tof_position=*/mode == 1 || mode == 2);
   // the geometry the list-mode object reports is independent of the template (only the scanner has to agree)
   w.lm_pdi = rng.coin(0.5) ? w.tpl->create_shared_clone() : gen_template(ctx, w, lps, false);
   w.g.init(w.tpl);
@@ -874,8 +897,7 @@ part_h(Ctx& ctx)
   auto sweep = [&](const Sel& sel, const std::vector<Frame>& frames, long cutoff, const std::string& mode_name) -> bool {
     const Expect x = model(w.st.recs, w.ev_bin, w.g, sel);
     note(x);
-    ctx.count("events_in_frames", x.in_frame);
-    ctx.count("events_out_of_range", x.out_of_range);
+    count_expect(ctx, x);
     std::vector<float> first;
     for (size_t bi = 0; bi < batches.size(); ++bi)
       {
@@ -903,6 +925,7 @@ part_h(Ctx& ctx)
             return false;
           }
         ctx.count("passes_rewound", rew);
+        ctx.count(pass_tag(o) == ":multi-pass" ? "runs_multi_pass" : "runs_single_pass");
         if (!compare(ctx, got, x, w.g, w.st.recs, w.ev_bin, sel, "histogram-differs-from-event-count:" + mode_name + pass_tag(o) + kclass,
                      opts_text(o)))
           return false;
@@ -1026,8 +1049,7 @@ part_h(Ctx& ctx)
               sel.f = frames[fi];
               const Expect x = model(w.st.recs, ev_bin_r, gr, sel);
               note(x);
-              ctx.count("events_in_frames", x.in_frame);
-              ctx.count("events_out_of_range", x.out_of_range);
+              count_expect(ctx, x);
               std::vector<float> got;
               try
                 {
@@ -1652,8 +1674,7 @@ part_g(Ctx& ctx)
         }
     }
   ctx.count("lm_gradient_voxels_compared", nvox);
-  ctx.count("events_in_frames", x.in_frame);
-  ctx.count("events_out_of_range", x.out_of_range);
+  count_expect(ctx, x);
   ctx.count(tof ? "cfg_gradient_tof" : "cfg_gradient_nontof");
   ctx.count(additive ? "cfg_gradient_additive" : "cfg_gradient_no_additive");
   ctx.count(cache_size > 0 ? "cfg_gradient_record_cache" : "cfg_gradient_no_cache");
